@@ -142,7 +142,8 @@ func c06cases(thorough bool) []c06case {
 	for _, st := range stored {
 		for _, form := range []string{"embedded", "iri"} {
 			for _, actors := range [][]interface{}{{Carol}, {Dave}, {Carol, Dave}, {Carol, Erin}, {Emb("Person", Carol)}, {Erin},
-				{M{"type": "Link", "id": Erin, "href": Carol}}, {M{"type": "Link", "id": Carol, "href": Erin}}, {M{"type": "Mention", "href": Carol}}, {Carol, M{"type": "Mention", "id": Erin, "href": Dave}}} {
+				{M{"type": "Link", "id": Erin, "href": Carol}}, {M{"type": "Link", "id": Carol, "href": Erin}}, {M{"type": "Mention", "href": Carol}}, {Carol, M{"type": "Mention", "id": Erin, "href": Dave}},
+				{strings.Replace(Carol, "/u/carol", "/u/CAROL", 1)}, {Carol + "/"}, {Carol + "#main"}, {Carol, Carol + "?x=1"}} {
 				st, form, actors := st, form, actors
 				var obj interface{} = Follow1
 				if form == "embedded" {
@@ -201,6 +202,13 @@ func c06cases(thorough bool) []c06case {
 		{"undo-actor-repeated-mixed-spelling", L{Carol, Emb("Person", Carol)}, L{Carol, Dave}, false},
 		{"undo-actor-repeated-three-orig-three", L{Carol, Dave, Carol}, L{Carol, Dave, Erin}, false},
 		{"orig-actor-repeated", L{Carol}, L{Carol, Carol}, true},
+		// ids that differ only in letter case outside the host, in a trailing slash, a query or a fragment are
+		// different actors
+		{"undo-actor-differs-in-path-case", L{strings.Replace(Carol, "/u/carol", "/u/Carol", 1)}, L{Carol}, false},
+		{"undo-actor-differs-by-trailing-slash", L{Carol + "/"}, L{Carol}, false},
+		{"undo-actor-differs-by-fragment", L{Carol + "#main"}, L{Carol}, false},
+		{"undo-actor-differs-by-query", L{Carol + "?x=1"}, L{Carol}, false},
+		{"undo-actor-is-prefix-of-orig", L{strings.TrimSuffix(Carol, "l")}, L{Carol}, false},
 	} {
 		for _, form := range []string{"embedded", "iri", "forged"} {
 			if form == "forged" && rel.ok {
@@ -334,7 +342,7 @@ func C06(tier string) int {
 			cases = append(cases, v)
 		}
 	}
-	res.Rule = fmt.Sprintf("(a) Update/Delete with the activity id on a host (default and non-default port) and every sequence of 1..%d object ids over hosts {same, other domain, other port, explicit default port, sub-domain, upper-case, parent domain}, embedded / IRI / embedded Link or Mention carrying the id plus an href on the activity's own host, keeping the sequences that contain a host that must be refused; (b) Accept with the stored Follow in {ours, ours with two objects, ours with two actors, absent, a Note, another actor's, lacking the accepting actor, a Like / Block / Offer / Create of the local actor naming the peer} x Follow embedded / by IRI (the peer's copy always supports its claim) x 10 accepting-actor sets (IRI, embedded actor, Link / Mention with id and differing href, Mention with href only); (c) Undo with actor sets equal / superset / subset / disjoint / overlapping, embedded / IRI / embedded with the copy forged to claim the Undo's actors, 1..2 undone activities; (c') the same with Link-spelled actors whose id and href disagree; (d) every sequence of 1..3 activity actors (IRI / embedded actor / Link with id and another href / Mention with href only) x blocked subsets, and an erroring block check; %d requests; every refused Update / Delete / Undo again after a LEGITIMATE activity carrying the same id was accepted at another local inbox of the same Actor; every refused or unverified Update / Delete / Accept / Undo again with each single (thorough: double) seam call failing (no write, no Undo callback, no state change beyond the inbox entry whatever fails); oracle: refusal implies the request fails and the state differs from the initial one at most by the inbox entry", map[bool]int{false: 3, true: 4}[res.Thorough()], len(cases))
+	res.Rule = fmt.Sprintf("(a) Update/Delete with the activity id on a host (default and non-default port) and every sequence of 1..%d object ids over hosts {same, other domain, other port, explicit default port, sub-domain, upper-case, parent domain}, embedded / IRI / embedded Link or Mention carrying the id plus an href on the activity's own host, keeping the sequences that contain a host that must be refused; (b) Accept with the stored Follow in {ours, ours with two objects, ours with two actors, absent, a Note, another actor's, lacking the accepting actor, a Like / Block / Offer / Create of the local actor naming the peer} x Follow embedded / by IRI (the peer's copy always supports its claim) x 14 accepting-actor sets (IRI, embedded actor, Link / Mention with id and differing href, Mention with href only, ids differing from a followed actor's only in path case / a trailing slash / a fragment / a query); (c) Undo with actor sets equal / superset / subset / disjoint / overlapping / differing only in path case, trailing slash, fragment, query or by being a prefix, embedded / IRI / embedded with the copy forged to claim the Undo's actors, 1..2 undone activities; (c') the same with Link-spelled actors whose id and href disagree; (d) every sequence of 1..3 activity actors (IRI / embedded actor / Link with id and another href / Mention with href only) x blocked subsets, and an erroring block check; %d requests; every refused Update / Delete / Undo again after a LEGITIMATE activity carrying the same id was accepted at another local inbox of the same Actor; every refused or unverified Update / Delete / Accept / Undo again with each single (thorough: double) seam call failing (no write, no Undo callback, no state change beyond the inbox entry whatever fails); oracle: refusal implies the request fails and the state differs from the initial one at most by the inbox entry", map[bool]int{false: 3, true: 4}[res.Thorough()], len(cases))
 	res.Assumptions = []string{"hosts differing only in case or by an explicit default port may be accepted or refused", "positive application for equal hosts is C04's"}
 	var mu sync.Mutex
 	chunk := 100
